@@ -72,7 +72,7 @@ def check(P, rep):
                 n += 1
                 v = key_variant(e.key)[0]
                 allowed = ('rotate_signers', '__constructor') if v == 'LastRotationTimestamp' else ('__constructor',)
-                rep.check(en in allowed and e.kind == 'sw', 'C09.R5', '%s:%s-writer' % (en, v), '%s written only in %s' % (v, '/'.join(allowed)), esite(ge, e))
+                rep.check((en in allowed or ('rotate_signers' in allowed and within_entry(ge, e, ['rotate_signers']))) and e.kind == 'sw', 'C09.R5', '%s:%s-writer' % (en, v), '%s written only in %s' % (v, '/'.join(allowed)), esite(ge, e))
                 rep.check(e.cls == 'instance', 'C09.R5', '%s:%s-durable' % (en, v),
                           '%s lives in instance storage (a temporary entry expires and silently resets the clock / the limit)' % v, esite(ge, e), e.cls)
     rep.floor('clock / delay writers', n, 3)
